@@ -76,22 +76,30 @@ CHECKS = {
                      "entailment; CFG dominance",
     },
     "C03": {
-        "text": "NARROW: decides that the geometric component of the "
-                "bin-count lower bound is an exact integer ceiling (one of "
-                "the enumerated idioms) of the total item area over the bin "
-                "area, that the total area sums width*height*multiplicity "
-                "over all rows unconditionally, that the stored bound is "
-                "max(damv, geo), that the consumers read that attribute and "
-                "that the reported geometric bound is the same ceiling.",
-        "design_ref": "DESIGN.md section 4, C03",
-        "note": "Does NOT decide the validity of the "
-                "Dell'Amico-Martello-Vigo bound (a theorem about the item "
-                "sets, not a shape of the code), hence not the headline "
-                "'never exceeds an achievable packing'. Exactness of the "
-                "geometric part is a necessary condition for both "
-                "directions of the property.",
-        "technique": "symbolic normal form matched against enumerated "
-                     "exact-ceiling idioms + structural dataflow",
+        "text": "Decides that the geometric component of the bin-count "
+                "lower bound is an exact integer ceiling of the full item "
+                "area over the bin area and that the stored bound is "
+                "max(damv, geo) read by all consumers; and that the "
+                "Dell'Amico-Martello-Vigo component is computed as defined "
+                "in the cited paper: classification into S1..S4 and S23 "
+                "(equivalence of the guards with the interval definitions "
+                "on every comparison outcome), the greedy pairing giving "
+                "S3 - ^S3, the closed formula of L(q) (symbolic normal form "
+                "with linearised sums and canonical ceilings compared with "
+                "a transcription of equations 6-7), the range of q, the "
+                "orientation, the argument binding of the driver and the "
+                "CUTSQ procedure.",
+        "design_ref": "DESIGN.md section 4, C03 and 10.2",
+        "note": "Validity of the DAMV bound itself is the theorem of the "
+                "paper and is not re-proved: the check decides agreement "
+                "with the definition, which is sufficient (not necessary) "
+                "for 'never exceeds an achievable packing' - a different "
+                "valid bound would be reported. Exactness of the geometric "
+                "part is necessary for both directions.",
+        "technique": "symbolic normal form + case splitting over comparison "
+                     "outcomes (exact Fourier-Motzkin) against transcribed "
+                     "definitions; enumerated exact-ceiling idioms; "
+                     "structural dataflow and call-binding rules",
     },
     "C08": {
         "text": "PARTIAL: the per-day transition of the travel-length "
